@@ -15,9 +15,13 @@ import (
 	"strconv"
 	"strings"
 	"time"
+	_ "time/tzdata" // zones for the local-zone knob, whatever the host has installed
 
 	"simrt"
 )
+
+// the process's local time zone is part of the environment: a scenario runs under a drawn one
+var c13Zones = []string{"", "", "UTC", "America/New_York", "Europe/Berlin", "Australia/Lord_Howe", "Asia/Kolkata"}
 
 var c13Pools = map[string][]string{
 	"numbers": {"1", "1.0", "01", "1e0", "-0", "0", "9", "10", "1a", "2", "10.5", "-3", "abc", "nan", "Inf", "0x10", "007", "7", "1e3", "1000"},
@@ -54,17 +58,20 @@ var c13Clean = map[string][]string{
 	"us":       {"12/31/2019", "01/01/2020", "01/02/2020", "02/01/2020", "10/05/2020", "01/01/2021", "03/04/2021", "11/30/2020"},
 	"rfc3339":  {"2020-01-01T00:00:00Z", "2020-01-01T00:00:01Z", "2020-01-01T10:00:00Z", "2020-01-02T03:04:05Z", "2019-12-31T23:59:59Z", "2020-10-10T10:10:10Z"},
 	"rfc3339ms": {"2020-01-01T00:00:00.250Z", "2020-01-01T00:00:00.750Z", "2020-01-01T00:00:00.500Z", "2020-01-01T00:00:01.100Z", "2019-12-31T23:59:59.900Z", "2020-01-01T00:00:00.125Z", "2020-01-01T00:00:01.050Z"},
+	// zone-less timestamps around daylight-saving transitions (the hour 02:00-03:00 does not exist on 2024-03-10 in New York
+	// and on 2024-03-31 in Berlin): their order is the order of the wall-clock readings, wherever the process runs
+	"naive":    {"2024-03-10T01:30:00", "2024-03-10T02:30:00", "2024-03-10T03:30:00", "2024-03-10T02:45:00", "2024-03-31T01:30:00", "2024-03-31T02:30:00", "2024-03-31T03:30:00", "2024-11-03T01:30:00", "2024-10-06T02:15:00"},
 	"words":    {"alpha", "Beta", "gamma", "delta", "Echo", "zulu", "_x", "~y", "Alpha", "beta"},
 }
 
-var c13CleanLayout = map[string]string{"iso": "2006-01-02", "us": "01/02/2006", "rfc3339": time.RFC3339, "rfc3339ms": time.RFC3339Nano}
+var c13CleanLayout = map[string]string{"iso": "2006-01-02", "us": "01/02/2006", "rfc3339": time.RFC3339, "rfc3339ms": time.RFC3339Nano, "naive": "2006-01-02T15:04:05"}
 
 // which families a mode's meaning is decided for
 var c13CleanModes = map[string][]string{
 	"text":       {"ints", "decimals", "weekdays", "months", "iso", "us", "words", "monabbr"},
 	"numeric":    {"ints", "decimals"},
 	"contextual": {"weekdays", "wkabbr", "months", "monabbr"},
-	"date":       {"iso", "us", "rfc3339", "rfc3339ms"},
+	"date":       {"iso", "us", "rfc3339", "rfc3339ms", "naive"},
 	"value":      {"ints", "words", "iso", "weekdays"},
 }
 
@@ -455,6 +462,14 @@ func init() {
 	worlds["C13"] = func(rc *RunCtx) {
 		t := rc.Tape
 		sc := c13Gen(t, rc.Mode == simrt.ModeFree)
+		zone := c13Zones[t.W(len(c13Zones))]
+		if zone != "" {
+			if loc, err := time.LoadLocation(zone); err == nil {
+				old := time.Local
+				time.Local = loc
+				defer func() { time.Local = old }()
+			}
+		}
 		if len(sc.Cols) > 0 || sc.Cmd == "reduce" {
 			// table cells are parsed by whitespace: keep keys free of spaces (none of the pools has them)
 			for _, k := range append(append([]string{}, sc.Keys...), sc.Cols...) {
@@ -483,7 +498,7 @@ func init() {
 				keysKind = "mixed"
 			}
 		}
-		desc := map[string]any{"cmd": sc.Cmd, "sort": sortArg, "pool": sc.Pool, "keys": sc.Keys, "counts": sc.Counts, "cols": sc.Cols}
+		desc := map[string]any{"cmd": sc.Cmd, "sort": sortArg, "pool": sc.Pool, "keys": sc.Keys, "counts": sc.Counts, "cols": sc.Cols, "local_zone": zone}
 		if sc.Cmd == "reduce" {
 			desc["sort_expression"] = sc.RedExpr
 			if len(sc.Keys) > 40 {
